@@ -866,6 +866,11 @@ pub fn parent_main(world: &'static dyn World, tier: Tier) -> i32 {
     let ev_path = format!("{}/evidence/{id}.json", out_root());
     std::fs::write(&ev_path, serde_json::to_string_pretty(&evidence).unwrap() + "\n")
         .expect("write evidence");
+    // The latest thorough run is kept next to it (the main file is rewritten by every run).
+    if tier == Tier::Thorough {
+        let _ = std::fs::create_dir_all(format!("{}/evidence/thorough", out_root()));
+        let _ = std::fs::write(format!("{}/evidence/thorough/{id}.json", out_root()), serde_json::to_string_pretty(&evidence).unwrap() + "\n");
+    }
     println!(
         "[{id}] evaluations={} distinct_nontrivial={} violations={} known={} wall={:.1}s evidence={ev_path}",
         agg.evaluations,
